@@ -121,7 +121,3 @@ def run(ctx: core.Ctx) -> core.Report:
                     rep.violation("C07:fanout", f"message #{k} {h[k]}: detection={d} but parts notified: {f}", case)
     return rep
 
-
-def replay(ctx, data):
-    print(data)
-    return 0
